@@ -436,6 +436,37 @@ pub mod bbsplus_utils {
         hash_to_scalar::<CS>(&c_arr, &blind_challenge_dst)
     }
 
+    /// serde counterparts of the identity / zero checks of the octet decoders
+    pub(crate) fn de_g1_non_identity<'de, D: serde::Deserializer<'de>>(
+        d: D,
+    ) -> Result<G1Projective, D::Error> {
+        let p = <G1Projective as serde::Deserialize>::deserialize(d)?;
+        if p.is_identity().into() {
+            return Err(serde::de::Error::custom("identity point"));
+        }
+        Ok(p)
+    }
+
+    pub(crate) fn de_g2_non_identity<'de, D: serde::Deserializer<'de>>(
+        d: D,
+    ) -> Result<G2Projective, D::Error> {
+        let p = <G2Projective as serde::Deserialize>::deserialize(d)?;
+        if p.is_identity().into() {
+            return Err(serde::de::Error::custom("identity point"));
+        }
+        Ok(p)
+    }
+
+    pub(crate) fn de_scalar_non_zero<'de, D: serde::Deserializer<'de>>(
+        d: D,
+    ) -> Result<Scalar, D::Error> {
+        let s = <Scalar as serde::Deserialize>::deserialize(d)?;
+        if s.is_zero().into() {
+            return Err(serde::de::Error::custom("zero scalar"));
+        }
+        Ok(s)
+    }
+
     #[cfg(test)]
     mod tests {
 
